@@ -12,7 +12,7 @@
     Writer. [pending_outbound_buffer] is a FIFO of byte buffers, [pending_outbound_buffer_first_msg_offset]
     the number of bytes of the front buffer already handed to the socket, [awaiting_write_event]
     set after a short write. The socket's answers ([send_data]'s return values) are an oracle. *)
-Require Import LdkV.Prim.U64.
+Require Import LdkV.Prim.U64 LdkV.Gen.NoiseConsts.
 From Coq Require Import List.
 Import ListNotations.
 Require Import LdkV.Model.Noise.
@@ -143,41 +143,62 @@ Definition sock_take (oracle : list nat) (offered : nat) : nat * list nat :=
 Record wstate := mk_w {
   w_queue : list bytes;     (* pending_outbound_buffer *)
   w_off : nat;              (* pending_outbound_buffer_first_msg_offset *)
-  w_awaiting : bool }.      (* awaiting_write_event *)
+  w_awaiting : bool;        (* awaiting_write_event *)
+  w_pause : bool }.         (* sent_pause_read: the last send_data call had continue_read = false *)
+
+(** [Peer::should_read]: fewer than [OUTBOUND_BUFFER_LIMIT_READ_PAUSE] buffers queued, and not
+    [blocked] (= gossip processing backlogged while this peer sent a channel_announcement) *)
+Definition should_read (queue : list bytes) (blocked : bool) : bool :=
+  (Z.of_nat (length queue) <? OUTBOUND_BUFFER_LIMIT_READ_PAUSE) && negb blocked.
 
 (** the socket part of the [while force_one_write || !peer.awaiting_write_event] loop of
     [do_attempt_write_data]; returns the new state, the bytes handed to the socket, the unused
-    oracle answers *)
-Fixpoint write_loop (queue : list bytes) (off : nat) (awaiting force : bool) (oracle : list nat)
-  : wstate * bytes * list nat :=
+    oracle answers, and the [continue_read] flag of every [send_data] call made, in order
+    (including the forced call with no data when nothing is queued) *)
+Fixpoint write_loop (queue : list bytes) (off : nat) (awaiting pause force blocked : bool) (oracle : list nat)
+  : wstate * bytes * list nat * list bool :=
   if force || negb awaiting then
+    let sr := should_read queue blocked in
     match queue with
-    | [] => (mk_w [] off awaiting, [], oracle)    (* send_data(&[], should_read) if forced; return *)
+    | [] =>
+      (* if force_one_write { send_data(&[], should_read); sent_pause_read = !should_read }; return *)
+      if force then (mk_w [] off awaiting (negb sr), [], oracle, [sr])
+      else (mk_w [] off awaiting pause, [], oracle, [])
     | next_buff :: q =>
       let pending := skipn off next_buff in
       let '(data_sent, oracle') := sock_take oracle (length pending) in
       let off' := (off + data_sent)%nat in
       if (off' =? length next_buff)%nat then
-        let '(st, sent, o) := write_loop q O awaiting false oracle' in
-        (st, firstn data_sent pending ++ sent, o)
-      else (mk_w (next_buff :: q) off' true, firstn data_sent pending, oracle')
+        let '(st, sent, o, calls) := write_loop q O awaiting (negb sr) false blocked oracle' in
+        (st, firstn data_sent pending ++ sent, o, sr :: calls)
+      else (mk_w (next_buff :: q) off' true (negb sr), firstn data_sent pending, oracle', [sr])
     end
-  else (mk_w queue off awaiting, [], oracle).
+  else (mk_w queue off awaiting pause, [], oracle, []).
 
 Inductive wop :=
-| WEnqueue (b : bytes)                       (* pending_outbound_buffer.push_back(encrypted) *)
-| WProcess (force : bool) (oracle : list nat) (* do_attempt_write_data from process_events *)
-| WSpaceAvail (oracle : list nat).           (* write_buffer_space_avail *)
+| WEnqueue (b : bytes)                                      (* pending_outbound_buffer.push_back(encrypted) *)
+| WProcess (force blocked : bool) (oracle : list nat)       (* do_attempt_write_data from process_events *)
+| WSpaceAvail (blocked : bool) (oracle : list nat).         (* write_buffer_space_avail *)
+
+(** state, bytes handed to the socket, [continue_read] flags of the [send_data] calls *)
+Definition wstep_full (st : wstate) (op : wop) : wstate * bytes * list bool :=
+  match op with
+  | WEnqueue b => (mk_w (w_queue st ++ [b]) (w_off st) (w_awaiting st) (w_pause st), [], [])
+  | WProcess force blocked oracle =>
+    (* force_one_write |= self.should_read_from(peer) == peer.sent_pause_read *)
+    let force' := force || Bool.eqb (should_read (w_queue st) blocked) (w_pause st) in
+    let '(st', sent, _, calls) :=
+      write_loop (w_queue st) (w_off st) (w_awaiting st) (w_pause st) force' blocked oracle in
+    (st', sent, calls)
+  | WSpaceAvail blocked oracle =>
+    (* peer.awaiting_write_event = false; do_attempt_write_data(.., true) *)
+    let '(st', sent, _, calls) :=
+      write_loop (w_queue st) (w_off st) false (w_pause st) true blocked oracle in
+    (st', sent, calls)
+  end.
 
 Definition wstep (st : wstate) (op : wop) : wstate * bytes :=
-  match op with
-  | WEnqueue b => (mk_w (w_queue st ++ [b]) (w_off st) (w_awaiting st), [])
-  | WProcess force oracle =>
-    let '(st', sent, _) := write_loop (w_queue st) (w_off st) (w_awaiting st) force oracle in (st', sent)
-  | WSpaceAvail oracle =>
-    (* peer.awaiting_write_event = false; do_attempt_write_data(.., true) *)
-    let '(st', sent, _) := write_loop (w_queue st) (w_off st) false true oracle in (st', sent)
-  end.
+  let '(st', sent, _) := wstep_full st op in (st', sent).
 
 Fixpoint wrun (st : wstate) (ops : list wop) : wstate * bytes :=
   match ops with
@@ -187,7 +208,7 @@ Fixpoint wrun (st : wstate) (ops : list wop) : wstate * bytes :=
     let '(st2, s2) := wrun st1 ops' in (st2, s1 ++ s2)
   end.
 
-Definition w_init : wstate := mk_w [] O false.
+Definition w_init : wstate := mk_w [] O false false.
 
 (** bytes queued but not yet handed to the socket *)
 Definition w_pending (st : wstate) : bytes := skipn (w_off st) (concat (w_queue st)).
@@ -198,3 +219,18 @@ Fixpoint enqueued (ops : list wop) : list bytes :=
   | WEnqueue b :: ops' => b :: enqueued ops'
   | _ :: ops' => enqueued ops'
   end.
+
+(** ** The socket driver's side of [send_data(data, continue_read)]
+    ([lightning-net-tokio]'s [SocketDescriptor::send_data], reduced to the read-pause flag): the
+    flag is taken from [continue_read] on EVERY call, before the early return for empty data, and
+    a paused reader is woken when the flag flips back. *)
+Record drv := mk_drv { d_read_paused : bool; d_wakeups : nat }.
+
+Definition drv_send_data (d : drv) (data : bytes) (continue_read : bool) : drv :=
+  let read_was_paused := d_read_paused d in
+  mk_drv (negb continue_read)
+         (if continue_read && read_was_paused then Datatypes.S (d_wakeups d) else d_wakeups d).
+
+(** the driver after the [send_data] calls of one writer step (only the flags matter) *)
+Definition drv_calls (d : drv) (calls : list bool) : drv :=
+  fold_left (fun d c => drv_send_data d [] c) calls d.
